@@ -561,6 +561,19 @@ def run(ctx, res):
                                  lab_cap=(200 if big else 40), per_map=(3 if big else 2))
         items += its
         inputs.append(inp)
+    # stream 1b: DEEP species trees (5-8 leaves, caterpillars over-sampled) under small object trees, every
+    # valid mapping: the distance-dependent clauses (full losses over >= 3 skipped species, on the conserved
+    # side of a transfer, on either side of a speciation/duplication) only show at depth
+    for _ in range(ctx.budget(120, 300)):
+        ns = rng.randint(5, 8)
+        S = gen.rand_shape(rng, ns, rng.choice(["cat", "cat", None, "bal"]))
+        osh = gen.rand_shape(rng, rng.choice([2, 2, 3, 3, 4]), None)
+        nfam = rng.choice([0, 0, 2, 3])
+        inp, order = rand_input(rng, 4, ns, nfam, oshape=osh, sshape=S)
+        its, _ = items_for_input(rng, inp, order, nfam, map_cap=(400 if big else 60),
+                                 lab_cap=(60 if big else 20), per_map=1)
+        items += its
+        res.dist["deep-species-input"] += 1
     # stream 2 (thorough): every pair of shapes up to 5x5, every valid mapping
     if big:
         shapes = [s for n in range(1, 6) for s in gen.shapes(n)]
